@@ -1,11 +1,14 @@
-From Tetl Require Import Lib.Base C08.Model C08.Spec C04.Model C04.Spec.
+From Tetl Require Import Lib.Base C08.Model C08.Spec C04.Model C04.ModelQ C04.Spec C04.SpecQ.
 Require Extraction.
 Require Import ExtrOcamlBasic.
 Extraction Language OCaml.
 Extraction "C04_model.ml" wire_anchor
-  mkstr mkview default_str ctor_ptr ctor_fill get_size contents terminator step run replace_m
+  mkstr mkview default_str ctor_ptr ctor_fill get_size contents terminator step run swap_m other_str replace_m replace_ptr_m replace_cstr_m replace5_m returned_pos returned_count pred_of
   view_of str_find_m str_rfind_m str_find_first_of_m str_find_first_not_of_m str_find_last_of_m
   str_find_last_not_of_m str_rfind_default_m str_find_last_of_default_m str_find_last_not_of_default_m
   str_compare_m str_compare5_m copy_m
-  spec_step spec_step_fits spec_run s_substr
-  find_s rfind_s find_first_of_s find_first_not_of_s find_last_of_s find_last_not_of_s compare_s compare5_s.
+  search_m default_pos compare_call_m starts_with_call_m ends_with_call_m contains_call_m
+  rel_str_str_m rel_str_cstr_m rel_cstr_str_m index_m front_m back_m empty_m full_m arr_view
+  spec_step spec_step_fits spec_run spec_run_fits s_substr s_cstr s_replace spec_returned_pos spec_returned_count
+  find_s rfind_s find_first_of_s find_first_not_of_s find_last_of_s find_last_not_of_s compare_s compare5_s
+  needle_chars search_s std_default_pos compare_call_s pfx_chars starts_with_s ends_with_s contains_s rel_s zth cstr_s.
